@@ -32,6 +32,11 @@ def check_tree(C, drv, root, tag, exhaustive_idx=True, recipe=None):
         if common.dec_ints(wouts[1]) != real_post:
             C.issue('translated-post-order-mismatch', 'correspondence', dict(how='tree', tree=enc), model=wouts[1][:120], real=real_post)
         C.extra['translated_walks_run'] = C.extra.get('translated_walks_run', 0) + 2
+        fouts = drv.ask_many([f'w.find {enc} {p}' for p in ps])
+        for p, o, r in zip(ps, fouts, real_find):
+            if o != r:
+                C.issue('translated-find-node-mismatch', 'correspondence', dict(how='tree', tree=enc, p=p), model=o, real=r)
+                break
     model_pre = common.dec_ints(outs[0])
     model_post = common.dec_ints(outs[1])
     rp = dict(how='tree', tree=enc)
